@@ -623,6 +623,8 @@ void World::onKillSignal(int pid, int result) {
 }
 
 void World::onCgroupKill(Cg& c) {
+  if (R.plan.get("cgroup_kill_noop", false).asBool())
+    return; // processes survive (used by the dry/wet differential)
   for (Cg* d : subtree(c))
     d->pids.clear();
   for (Cg* d : subtree(c))
